@@ -248,7 +248,7 @@ func (t *objectType) Equals(other interface{}, guard px.Guard) bool {
 		// Not yet resolved.
 		return false
 	}
-	if t.name != ot.name {
+	if anonymousName(t.name) != anonymousName(ot.name) {
 		return false
 	}
 	if t.equalityIncludeType != ot.equalityIncludeType {
@@ -280,6 +280,14 @@ func (t *objectType) Equals(other interface{}, guard px.Guard) bool {
 		t.parameters.Equals(ot.parameters, guard) &&
 		px.Equals(t.equality, ot.equality, guard) &&
 		px.Equals(t.serialization, ot.serialization, guard)
+}
+
+// anonymousName: the name `Object` of the default Object type is no name (see initHash)
+func anonymousName(name string) string {
+	if name == `Object` {
+		return ``
+	}
+	return name
 }
 
 func (t *objectType) FromReflectedValue(c px.Context, src reflect.Value) px.PuppetObject {
